@@ -24,7 +24,7 @@ MSG_CLASSES = [
     ("there is no explicit context for closure", "noexplicit"),
     ("not all explicit contexts are closed", "notallclosed"),
     ("Unknown lexeme type", "unknownlexeme"),
-    ("recursion detected", "includerecursion"),
+    ("\x00recursion detected", "includerecursion"),
     ("annotation is forbidden for the directive", "annotforbidden"),
     ("empty macro", "emptymacro"),
     ("duplicate names are not allowed", "dupname"),
@@ -35,6 +35,8 @@ MSG_CLASSES = [
 
 def msg_class(msg):
     first = msg.split("\n")[0]
+    if first == "recursion detected":
+        return "includerecursion"
     for needle, cls in MSG_CLASSES:
         if needle in first:
             return cls
@@ -167,3 +169,89 @@ def shape(forest, files):
         return (d["kind"], d["kw"], d["np"], d["up"], d["ann"], body_text(d["body"]), d["x"], tuple(one(k) for k in d["kids"]))
 
     return tuple(one(d) for d in forest)
+
+
+# ---- full pipeline: catalog skeleton ---------------------------------------------------------
+from . import skeleton as SK  # noqa: E402
+
+CAT_CLASSES = [
+    "BaseURL already defined", "HTTP method not found", "Has unused parameters", "JSIGHT should be the first directive",
+    "JSON-RPC method not found", "You cannot specify User Type in the response directive if it has a child Body directive",
+    "annotation is forbidden", "apart from the opening parenthesis", "body is empty", "cannot be within the same URL directive",
+    "cannot use the Type and SchemaNotation parameters together", "directive INFO gotta be only one time",
+    "directive JSIGHT gotta be only one time", "duplicate names", "empty body", "empty description", "empty info",
+    "has already been defined earlier", "incorrect directive context", "incorrect empty PATH parameter", "incorrect path",
+    "incorrect request", "method is already defined", "non-unique path", "not a unique directive",
+    "is duplicated in the path", "parameters are forbidden", "parameters are unacceptable, according to the Body directive",
+    "parent directive not found", "path not found", "request is empty", "required parameter", "resource not found",
+    "responses is empty", "server not found", "\"similar\" paths", "tag not found", "the directive Protocol must be unique",
+    "the directive \"Protocol\" was not found", "the parameter value have to be", "there is no body for the Path directive",
+    "unknown schema notation", "unsupported version of JSIGHT", "wrong description context",
+]
+MODEL_TO_IMPL = {"similar paths": "\"similar\" paths", "parameter is duplicated in the path": "is duplicated in the path",
+                 "the directive Protocol was not found": "the directive \"Protocol\" was not found"}
+
+
+def impl_cat_class(msg):
+    first = msg.split("\n")[0]
+    for c in CAT_CLASSES:
+        if c in first:
+            return c
+    return None
+
+
+def compare_full(projects, opts=""):
+    """full pipeline: returns list of records dict(k, kind, impl, model) where kind in
+    same | skel-diff | verdict-diff | err-diff | library (not the model's to decide) | dup-keys"""
+    o = (opts + "," if opts else "") + "stage=full"
+    lines = [P.run_line(o, pj) for pj in projects]
+    impl = C.run_sharded("harness", "fn", [P.run_line(opts or "-", pj) for pj in projects])
+    model = C.run_sharded("modelrun", None, lines)
+    out = []
+    for k, (i, m) in enumerate(zip(impl, model)):
+        si, di = P.parse(i)
+        sm, dm = P.parse(m)
+        rec = {"k": k, "impl": i[:300], "model": m[:300]}
+        mk = dm.get("kind", "") if sm == "err" else ""
+        if sm == "err" and mk.startswith("msg:library"):
+            rec["kind"] = "library"
+        elif si == "ok" and sm == "ok":
+            a, dups = SK.skeleton(C.unhx(di["json"]))
+            a = a.encode("utf-8", "surrogateescape").decode("latin1")
+            b = C.unhx(dm["skel"]).decode("latin1")
+            rec["dups"] = dups
+            rec["skel"] = a
+            if a == b:
+                rec["kind"] = "same"
+            else:
+                rec["kind"] = "skel-diff"
+                for x, y in zip(a.split("\n"), b.split("\n")):
+                    if x != y:
+                        rec["first_diff"] = (x[:200], y[:200])
+                        break
+        elif si == "err" and sm == "err":
+            msg = C.unhx(di["msg"]).decode("latin1")
+            ni = norm_impl(i)
+            cls = mk.split("wrapped:")[-1]
+            if cls.startswith("msg:"):
+                want = cls[4:].replace("_", " ")
+                want = MODEL_TO_IMPL.get(want, want)
+                ok = (want in msg.split("\n")[0]) and (ni[1], ni[2], ni[3], ni[4]) == (
+                    C.unhx(dm["file"]).decode("latin1"), int(dm["idx"]), dm["line"], C.unhx(dm["trace"]).decode("latin1"))
+            else:
+                ok = ni == norm_model(m) or (ni[-1] == "scan" and norm_model(m)[-1] == "scan" and ni[1:5] == norm_model(m)[1:5])
+            rec["kind"] = "same" if ok else "err-diff"
+            if not ok and impl_cat_class(msg) is None and msg_class(msg) == "scan":
+                rec["kind"] = "library"      # a schema-library diagnostic pre-empts what the model predicts
+            rec["impl_msg"] = msg[:160]
+        elif si == "err" and sm == "ok":
+            msg = C.unhx(di["msg"]).decode("latin1")
+            # a diagnostic outside the model's vocabulary comes from the schema library
+            rec["kind"] = "verdict-diff" if (impl_cat_class(msg) or msg_class(msg) != "scan") else "library"
+            rec["impl_msg"] = msg[:160]
+        elif si == "ok" and sm == "err":
+            rec["kind"] = "verdict-diff"
+        else:
+            rec["kind"] = "verdict-diff" if si != sm else "same"
+        out.append(rec)
+    return out
